@@ -18,6 +18,8 @@
 (*   element m_i : substitutionGroup = parent(m_i), type as h or Ext        *)
 (*   element root: sequence(ref h {occ}, [box(ref m1 ?)], [e: Base],     *)
 (*                 [group G], [n: Node], [end, any ?]) + [attributeGroup AG]*)
+(*   (the attribute group AG and the model group G carry ONE name, G:      *)
+(*    groups and attribute groups live in separate symbol spaces)           *)
 (*   group G     = sequence(p: int, q: string?), referenced with an          *)
 (*                 occurrence range of its own (1, 0..1, 1..unbounded)       *)
 (*   (root may be mixed="true": character data between its children)       *)
